@@ -52,6 +52,10 @@ ResidualBits(res, bs, order, method, po, params) ==
                        rs == SubSeq(res, Start(k) + 1, Start(k) + Count(k))
                    IN IF pr[1] = "rice"
                       THEN PutU(pr[2], pbits) \o FoldLeft(LAMBDA a, r : a \o RiceBits(r, pr[2]), <<>>, rs)
+                      \* <<"rawrice", k, q, low>>: every residual of the partition written as the Rice code (q zeros, a one, low in k bits),
+                      \* whatever value that stands for - q * 2^k + low may need more than 32 bits, which no residual can
+                      ELSE IF pr[1] = "rawrice"
+                      THEN PutU(pr[2], pbits) \o FoldLeft(LAMBDA a, r : a \o PutUnary(pr[3]) \o PutU(pr[4], pr[2]), <<>>, rs)
                       ELSE PutU(esc, pbits) \o PutU(pr[2], 5) \o FoldLeft(LAMBDA a, r : a \o PutS(r, pr[2]), <<>>, rs)
     IN PutU(method, 2) \o PutU(po, 4) \o FoldLeft(LAMBDA a, k : a \o Part(k), <<>>, [k \in 1..np |-> k])
 ResidualFits(res, bs, order, method, po, params) ==
@@ -62,9 +66,9 @@ ResidualFits(res, bs, order, method, po, params) ==
     IN /\ bs % np = 0 /\ psz >= order
        /\ \A k \in 1..np :
             LET pr == params[((k - 1) % Len(params)) + 1] IN
-            /\ (pr[1] = "rice" => pr[2] < (IF method = 0 THEN 15 ELSE 31))
+            /\ (pr[1] \in {"rice", "rawrice"} => pr[2] < (IF method = 0 THEN 15 ELSE 31))
             /\ \A i \in (Start(k) + 1)..(Start(k) + Count(k)) :
-                  IF pr[1] = "rice" THEN RiceFits(res[i], pr[2]) ELSE EscFits(res[i], pr[2])
+                  IF pr[1] = "rice" THEN RiceFits(res[i], pr[2]) ELSE IF pr[1] = "rawrice" THEN TRUE ELSE EscFits(res[i], pr[2])
 
 -----------------------------------------------------------------------------
 (* residuals of a channel for a predictor: res[i] = s[ord+i] - pred          *)
